@@ -28,15 +28,17 @@ results, unbounded waits or zero-timeout polls.  Clock monotonicity is part of `
   `Exec (St.init …) evs s' → tmoContract evs = true → tmoVerdict evs = none`.
   Proved instead: `tmo_sound_partial` (the same with the scope restriction `noDayCap evs`: no `.ms v` wait with
   `v ≥ 86 400 000`), and `tmo_cap_sound` (no restriction) for the corrected oracle `tmoCapVerdict`, which differs
-  from `tmoVerdict` only in treating a millisecond wait at the cap like an unbounded wait (`tmoStepC`, the
+  from `tmoVerdict` only in treating a millisecond wait at the cap like an unbounded wait (`Ivy.Mon.C07.tmoStepC`, the oracle the checks run; it started as the
   proposed edit of `Mon.C07.tmoStep`).
 * Part (b) holds in full: the counter `zeros` never exceeds 2 (`tmo_zeros_le_two`), so the third consecutive empty
   zero-timeout poll never happens.  2 is reached (`zeros_two_reached`), but only through the `ppoll → poll`
-  fallback after `ENOSYS`, which re-reads the clock between the two polls; without it the bound is 1.
+  fallback after `ENOSYS`, which re-reads the clock between the two polls; on traces without an `ENOSYS` answer
+  the bound is 1 (`tmo_zeros_le_one`).  The tolerance `zeros ≥ 2` of `tmoStep` is therefore exactly right under
+  the weak kernel contract `envOk` (which lets `ENOSYS` come at any time).
 -/
 namespace Ivy.Props.C07tmo
 open Ivy.L1 Ivy.L1.ProofsC07tmo
-open Ivy.Mon.C07 (TmoSt tmoStep tmoVerdict)
+open Ivy.Mon.C07 (TmoSt tmoStep tmoVerdict tmoStepC tmoCapVerdict)
 
 /-- Every trace of the machine from an initial state on which the environment keeps the timeout contract, and on
 which no millisecond wait is at the 24 h cap of `to_msec`, is accepted by the timeout-progress oracle. -/
@@ -53,6 +55,15 @@ theorem tmo_zeros_le_two (m : Method) (ntimers : Nat) (timerfdAvail pwait2 : Boo
     (hcap : noDayCap evs = true) : ∃ μ : TmoSt, runMon tmoStep {} evs = .ok μ ∧ μ.zeros ≤ 2 :=
   tmo_bound m ntimers timerfdAvail pwait2 evs s' h hc hcap
 
+/-- Without an `ENOSYS` answer to a wait (`noEnosys evs`: no `Ev.inp (.wret .enosys)` record, so no `ppoll → poll`
+fallback in the middle of a run) the count never exceeds 1: a second consecutive empty zero-timeout poll without a
+callback in between does not happen. -/
+theorem tmo_zeros_le_one (m : Method) (ntimers : Nat) (timerfdAvail pwait2 : Bool) (evs : List Ev) (s' : St)
+    (h : Exec (St.init m ntimers timerfdAvail pwait2) evs s') (hc : tmoContract evs = true)
+    (hcap : noDayCap evs = true) (hne : noEnosys evs = true) :
+    ∃ μ : TmoSt, runMon tmoStep {} evs = .ok μ ∧ μ.zeros ≤ 1 :=
+  tmo_bound_one m ntimers timerfdAvail pwait2 evs s' h hc hcap hne
+
 /-- The corrected oracle (a millisecond wait at the 24 h cap is not a sleep that owes a callback) accepts every
 trace of the machine that keeps the timeout contract — no scope restriction. -/
 theorem tmo_cap_sound (m : Method) (ntimers : Nat) (timerfdAvail pwait2 : Bool) (evs : List Ev) (s' : St)
@@ -65,7 +76,6 @@ at the cap (in particular on all logs with timers less than 24 h ahead). -/
 theorem tmo_cap_agrees (evs : List Ev) (hcap : noDayCap evs = true) : tmoCapVerdict evs = tmoVerdict evs := by
   unfold tmoCapVerdict tmoVerdict runMon
   rw [tmoFold_eq evs {} hcap]
-  rfl
 
 /-! ## non-vacuity -/
 
@@ -174,5 +184,16 @@ theorem zeros_two_reached :
     tmoVerdict fbTr.1 = none :=
   ⟨runTrace_exec _ _ _, by decide +kernel, by decide +kernel, by decide +kernel, by decide +kernel,
    tmo_sound_partial _ _ _ _ _ _ (runTrace_exec _ _ _) (by decide +kernel) (by decide +kernel)⟩
+
+/-- the bound 1 of `tmo_zeros_le_one` is reached: the same run cut before the `ENOSYS` answer (one empty
+zero-timeout `ppoll` after which task 0 finds nothing pending, then a 9 s `ppoll`) -/
+def fb1Tr : List Ev × St := runTrace 200 (St.init .ppoll 1) (fbInputs.take 12)
+
+theorem zeros_one_reached :
+    Exec (St.init .ppoll 1) fb1Tr.1 fb1Tr.2 ∧ tmoContract fb1Tr.1 = true ∧ noDayCap fb1Tr.1 = true ∧
+    noEnosys fb1Tr.1 = true ∧ zerosAfter fb1Tr.1 = some 1 ∧
+    fb1Tr.1.any (fun e => match e with | .out (.wait "ppoll" (.ns 9000000000) ..) => true | _ => false) = true :=
+  ⟨runTrace_exec _ _ _, by decide +kernel, by decide +kernel, by decide +kernel, by decide +kernel,
+   by decide +kernel⟩
 
 end Ivy.Props.C07tmo
